@@ -291,7 +291,43 @@ def params_equiv(name, a, b):
     return False
 
 
+SELF_INVERSE = {"H", "X", "Y", "Z", "CNOT", "CX", "CY", "CZ", "SWAP", "CSWAP", "CH"}
+
+
+def _is_zero_param(pa):
+    if isinstance(pa, Sym):
+        return pa.p.is_zero()
+    return isinstance(pa, (int, float)) and pa == 0
+
+
+def normalize(gates):
+    """peephole normal form used by the structural (sufficient) comparison: rotations by exactly zero are dropped and
+    adjacent mutually inverse gates cancel (H H, CNOT CNOT, R(a) R(-a) on the same qubits) -- identities only"""
+    st = []
+    for g in gates:
+        nm = g.name.upper()
+        if nm in PERIOD_PI and _is_zero_param(g.parameter):
+            continue
+        if st:
+            t = st[-1]
+            if (t.name.upper(), list(t.target), list(t.control or [])) == (nm, list(g.target), list(g.control or [])):
+                if nm in SELF_INVERSE:
+                    st.pop()
+                    continue
+                if nm in PERIOD_PI and _is_num(t.parameter) and _is_num(g.parameter):
+                    try:
+                        if _is_zero_param(Sym.of(t.parameter) + Sym.of(g.parameter)) if (isinstance(t.parameter, Sym) or isinstance(g.parameter, Sym)) \
+                                else (t.parameter + g.parameter == 0):
+                            st.pop()
+                            continue
+                    except Exception:
+                        pass
+        st.append(g)
+    return st
+
+
 def same_structure(g1, g2):
+    g1, g2 = normalize(g1), normalize(g2)
     if len(g1) != len(g2):
         return False, f"{len(g1)} gates vs {len(g2)} gates"
     for i, (a, b) in enumerate(zip(g1, g2)):
@@ -325,6 +361,65 @@ def _sym_vars(*circuits):
 
 
 MAX_RESIDUAL_TERMS = 1500
+
+
+def _numeric_differs(c1, c2, n, tries=24, need=3):
+    """symbolic mode helper: evaluate both circuits with floats at random points that satisfy the current path
+    condition.  True: the states differ (up to phase) at some point; False: equal at `need` points; None: no point found"""
+    import math
+    import random as _r
+    from symx import core, num, path
+    ctx = num.ctx()
+    rnd = _r.Random(12345)
+    pcs = list(path.PATH.pc) if path.PATH is not None else []
+    ok = 0
+    for _ in range(tries):
+        val = {}
+        for i, kind in enumerate(ctx.kind):
+            if kind != "real":
+                continue
+            info = ctx.info[i]
+            if i == ctx.pi:
+                val[i] = math.pi
+            elif info.get("tiny"):
+                val[i] = float(info["value"])
+            elif "!" in ctx.names[i]:
+                return None          # fresh (defined) variables: no cheap sampling
+            else:
+                lo = float(info["lo"]) if info.get("lo") is not None else -2.0
+                hi = float(info["hi"]) if info.get("hi") is not None else 2.0
+                val[i] = rnd.uniform(lo, hi)
+        try:
+            if not all(core._holds(f, val, 1e-9) for f in pcs):
+                continue
+        except Exception:
+            return None
+
+        def conc(c):
+            out = []
+            for g in c._gates:
+                pa = g.parameter
+                if isinstance(pa, Sym):
+                    pa = pa.p.evaluate(val).real
+                out.append((g.name, g.target, g.control, pa if pa != "" else None))
+            return out
+        old = R.EXACT
+        R.EXACT = False
+        try:
+            a, b = R.run_gates(conc(c1), n), R.run_gates(conc(c2), n)
+        finally:
+            R.EXACT = old
+        k = max(range(len(b)), key=lambda j: abs(b[j]))
+        if abs(a[k]) < 1e-9:
+            return True
+        ph = a[k] / b[k]
+        ph /= abs(ph)
+        if any(abs(x - ph * y) > 1e-7 for x, y in zip(a, b)):
+            return True
+        ok += 1
+        if ok >= need:
+            return False
+    return None
 
 
 def _formula_size(f):
@@ -373,11 +468,18 @@ def compare(env, c1, c2, what):
     ok, why = same_structure(c1._gates, c2._gates)
     if ok:
         # parameters are identical polynomials (or equal modulo the period): recorded as obligations, trivial for the solver
-        pa = [g.parameter for g in c1._gates if isinstance(g.parameter, Sym)]
-        pb = [g2.parameter for g, g2 in zip(c1._gates, c2._gates) if isinstance(g.parameter, Sym)]
+        n1, n2 = normalize(c1._gates), normalize(c2._gates)
+        pa = [g.parameter for g in n1 if isinstance(g.parameter, Sym)]
+        pb = [g2.parameter for g, g2 in zip(n1, n2) if isinstance(g.parameter, Sym)]
         pb = [b if params_equal_poly(a, b) else a for a, b in zip(pa, pb)]
-        env.check_vec_eq(pa, pb, f"{what}: gate list after updates == fresh gate list (parameters as polynomials)")
-        env.check_same(len(c1._gates), len(c2._gates), f"{what}: same number of gates")
+        env.check_vec_eq(pa, pb, f"{what}: gate list after updates == fresh gate list (parameters as polynomials; "
+                                 "zero rotations and adjacent inverse pairs removed)")
+        env.check_same(len(n1), len(n2), f"{what}: same number of gates")
+        return
+    if n <= MAX_NUM_QUBITS and _numeric_differs(c1, c2, n) is True:
+        # routing only (no claim rests on it): at a sampled point of the path the two states already differ, so the
+        # exact symbolic evaluation is skipped and the witness is left to the solver-model + concrete replay
+        refute_by_replay(env, lab, f"gate lists differ ({why}); states differ at a sampled point of the path")
         return
     if n <= MAX_SYM_QUBITS and len(_sym_vars(c1, c2)) <= MAX_SYM_VARS and _nice_angles(c1, c2):
         _, s1, s2 = states_of(c1, c2)
@@ -481,7 +583,7 @@ def h_length(env, kind, cfg):
     A0 = make_any(kind, cfg)
     n = A0.n_var_params
     env.check_true(n >= 1, f"{kind}: at least one parameter")
-    for L in range(0, n + 3):
+    for L in (range(0, n + 3) if n <= 12 else (0, 1, n // 2, n - 1, n, n + 1, n + 2)):
         v = [env.real(f"x{L}_{i}", lo=0.25, hi=1) for i in range(L)]
         if L == n:
             A = fresh_built()
@@ -583,7 +685,7 @@ def patterns(n, tier, rnd, n_extra):
     def full_pm():
         return "".join(rnd.choice("+-") for _ in range(n))
 
-    def s_limited(k=3):
+    def s_limited(k=2):
         idx = set(rnd.sample(range(n), min(k, n)))
         return "".join("s" if i in idx else rnd.choice("+-") for i in range(n))
     out = []
